@@ -410,8 +410,8 @@ def handleType (_c : Ctx) (cmd : List Bytes) : Prog Res :=
     | .flt _ => .ret (.ok (simpleStr (b "float")))
     | .list _ => .ret (.ok (simpleStr (b "list")))
     | .hash _ => .ret (.ok (simpleStr (b "hash")))
-    | .set _ => .ret (.ok (simpleStr (b "set")))
-    | .zset _ => .ret (.ok (simpleStr (b "zset")))
+    | .set _ _ => .ret (.ok (simpleStr (b "set")))
+    | .zset _ _ => .ret (.ok (simpleStr (b "zset")))
   | _ => .ret (.err wrongArgs)
 
 /-! ### string module (internal/modules/string/commands.go) -/
